@@ -69,7 +69,7 @@ def node_checks(sheet):
 
             def mk_media(txt):
                 n = css.CSSMediaRule()
-                n.cssText = txt
+                n.cssText = (txt, dict(sheet.namespaces.items()))      # like the style rule: a detached rule knows no prefixes
                 return [sheetast.project_rule(n)], n.cssText
             add("mediarule", [sheetast.project_rule(r)], r.cssText, mk_media)
         elif t in ("PAGE_RULE", "FONT_FACE_RULE", "NAMESPACE_RULE", "IMPORT_RULE", "COMMENT", "CHARSET_RULE"):
